@@ -319,6 +319,17 @@ func famCodec(dir string, seed int64, tier string) {
 		if err != nil || n != len(o0.bytes) {
 			repEnc.violate("C02", "encoded-len", fmt.Sprintf("EncodedLen=%d (err %v) but %d bytes were written", n, err, len(o0.bytes)), desc)
 		}
+		// caller-supplied scratch buffers (EncodeBuffer): an 8-byte window of a larger, dirty buffer and a
+		// shared one must give the same bytes as Encode's private scratch
+		for si, scratch := range scratchBuffers() {
+			w, cw := mkWriter(si%2, 0)
+			e := guard(func() error { return sb.Copy(tokensFrom(ts), sb.EncodeBuffer(w, scratch, nil)) })
+			repEnc.Evaluations++
+			if e != nil || !bytes.Equal(cw.buf.Bytes(), o0.bytes) {
+				repEnc.violate("C03", "scratch-buffer-dependent", fmt.Sprintf("EncodeBuffer with scratch %d (len %d cap %d) wrote %d bytes (%v), Encode wrote %d", si, len(scratch), cap(scratch), cw.buf.Len(), e, len(o0.bytes)), desc)
+				break
+			}
+		}
 		// a second run must give the same bytes (purity)
 		o2 := runEncode(ts, 0, 0)
 		if !bytes.Equal(o0.bytes, o2.bytes) {
@@ -348,6 +359,31 @@ func famCodec(dir string, seed int64, tier string) {
 					repDec.violate("C02", "read-ahead", fmt.Sprintf("after token %d the reader %q had handed out %d bytes, tokens so far occupy %d", i, readerFlavours[fl], o.perToken[i], sum), desc)
 					break
 				}
+			}
+		}
+		// caller-supplied scratch buffers (DecodeBuffer): the same tokens whatever the size of the scratch
+		for si, scratch := range scratchBuffers() {
+			if len(scratch) == 8 && si != 1 {
+				scratch = make([]byte, []int{8, 16, 9, 32}[si]) // longer scratches too: only 8 bytes of it are a word
+			}
+			var toks []sb.Token
+			e := guard(func() error {
+				var src io.Reader = bytes.NewReader(o0.bytes)
+				var br io.ByteReader
+				if si%2 == 0 {
+					src = plainReaderFlavour{&baseReader{data: o0.bytes, r: r}}
+				} else {
+					br = src.(io.ByteReader)
+				}
+				p := sb.DecodeBuffer(src, br, scratch, nil)
+				var err error
+				toks, err = collect(&p)
+				return err
+			})
+			repDec.Evaluations++
+			if e != nil || !tokensExactEq(toks, ts) {
+				repDec.violate("C02", "scratch-buffer-dependent", fmt.Sprintf("DecodeBuffer with a scratch of %d bytes gives (%v) %s", len(scratch), e, truncate(descTokens(toks), 300)), desc)
+				break
 			}
 		}
 		if len(o0.bytes) < 40000 || thorough {
@@ -782,4 +818,20 @@ func minInt(a, b int) int {
 		return a
 	}
 	return b
+}
+
+// scratch buffers a caller may hand to EncodeBuffer: exactly 8 bytes, an 8-byte window in the middle
+// of a larger buffer filled with 0xAA, a window with spare capacity, and one reused across calls
+var sharedScratch = make([]byte, 8, 32)
+
+func scratchBuffers() [][]byte {
+	big := make([]byte, 64)
+	for i := range big {
+		big[i] = 0xAA
+	}
+	spare := make([]byte, 8, 16)
+	for i := range spare[:16] {
+		spare[:16][i] = 0x55
+	}
+	return [][]byte{make([]byte, 8), big[8:16], spare, sharedScratch}
 }
